@@ -100,6 +100,7 @@ def run_unit(name):
                 Enc(("be", 1, True), magic), Enc(("be", 4, False), crc)] + post
         tail = ctx.bytes_const("tail")
         src = Source(ctx, segs + [Raw(tail)])
+        res.replayer = batch_replayer(fn, mode, f, recs, magic, crc if mode == "checksum-mismatch" else None)
         it = make_interp(ctx, reg, exclude=fn, models=reg.records_models)
         it.symbolic_records = True
         it.loop_handler = CR.batch_loop
@@ -129,6 +130,37 @@ def run_unit(name):
         collect(res, ctx)
     explore_unit(res, run)
     return [common.summarise(res, [common.function_record(fn)])]
+
+
+def batch_replayer(fn, mode, f, recs, magic, bad_crc):
+    """concretise the symbolic batch, encode it with the reference encoder and run the real reader"""
+    def replay(ob):
+        import io
+        from checks.l1_serial import native_outcome, small_model
+        from spec import domains
+        from spec import records_spec as RS
+        conc = domains.Concretiser(small_model(ob))
+        v = {k: conc.value(x) for k, x in f.items()}
+        records = list(conc.value(recs))
+        try:
+            post = RS.encode_post(v["attributes"], v["last_offset_delta"], v["base_timestamp"], v["max_timestamp"], v["producer_id"],
+                                  v["producer_epoch"], v["base_sequence"], v["base_offset"], records)
+        except Exception as ex:       # noqa: BLE001
+            return {"confirmed": None, "note": f"reference encoder not applicable to the concretised batch: {ex!r}"}
+        crc = RS.crc32c_ref(post) if bad_crc is None else conc.int_(bad_crc.t)
+        m = conc.int_(magic.t) if hasattr(magic, "t") else 2
+        data = RS.be(8, v["base_offset"]) + RS.be(4, len(post) + 9) + RS.be(4, v["partition_leader_epoch"]) + RS.be(1, m) + RS.be(4, crc, False) + post
+        buf = io.BytesIO(data + b"\x33")
+        k, r = native_outcome(lambda: fn(buf))
+        if mode == "well-formed":
+            ok = k == "return" and buf.tell() == len(data) and all(getattr(r, n) == v[n] for n in v) and len(r.records) == len(records)
+            exp = "a batch with the encoded header fields, exactly the batch consumed"
+        else:
+            ok = k == "raise" and r is ValueError
+            exp = "ValueError"
+        return {"confirmed": not ok, "input_bytes": data.hex()[:400], "records": len(records), "expected": exp,
+                "observed": {"outcome": k, "value": (repr(r)[:200] if k == "return" else r.__name__), "position": buf.tell()}}
+    return replay
 
 
 def main(tier):
